@@ -20,6 +20,19 @@ schedule labels separated by `,` (`-` = none). `S` starts the request (the worke
          XL<k>:<reason>:<d><t> (the same after an upstream reset of attempt k)
          XP<k>:<reason> (upstream reset of attempt k, then the per-try timer fires BEFORE the worker handles the reset:
          labels X, PT with no worker step in between; the harness keeps the worker inside the upstream sender meanwhile)
+         [proxy10] ZB:<trigger>:<event> — an event delivered while the worker is asleep in doRetry's back-off (the harness
+         holds the worker at a yield site of pkg/proxy: top of the Retry phase, or inside setupRetry) — the model runs the
+         trigger, the worker up to the back-off, the event's label, then the worker until it blocks:
+           trigger  X<k>=<reason> (upstream reset of attempt k) | P<k> (its per-try timer) | R<k>=<status>=<d><t> (its answer)
+           event    TM<code> (TerminateStream) | TMm<code> / TMs<code> (… landing INSIDE setupRetry, after the mark / after the
+                    swing of the response slot: the call behaves as in the back-off, fix 4e7d4a7f0) | DR | CC | GT (the global
+                    timer fires during the sleep) | GSm / GSs (… fires INSIDE setupRetry: label gtInSetup) | HG | PFo | PFc |
+                    L<d><t> (late frame of attempt k) | DS (the client leaves while the wake-up is inside the upstream send of
+                    attempt k+1: labels work — the Retry pass —, then DR)
+         XT<k>:<reason>:<code>  PTT<k>:<code>  RT<k>:<status>:<d><t>:<code>   proxy9 spelling of ZB:…:TM<code>
+         ZS<k>:<code>:<d><t>:<w|f|h>:<reason> — the head of a streamed response of attempt k, then the reset of its open client
+         stream BEFORE the head is forwarded: with the wake-up of the head not yet consumed (w: no worker step between the
+         two labels), in the UpFilter phase (f), right before UpRecvHeader (h: the harness holds the worker at the top of that phase)
 trace    the downstream sender calls carry the token of the answer the written part belongs to:
          dh:<status>:<eos>:<tok>  dd:<eos>:<tok>  dt:<tok>   tok = a<k> (response of attempt k) | l (local reply) | - (none)
 tm       the return values of the TerminateStream calls of the schedule (TM / TS / TR), in order: tm=<0|1>,…|-
@@ -129,6 +142,41 @@ def parseDT (dt : String) : Option (Bool × Bool) :=
   | [d, t] => do pure (← b01 d.toString, ← b01 t.toString)
   | _ => none
 
+def arming : Label → Bool
+  | .poolFail _ => true
+  | .hostsGone => true
+  | _ => false
+
+/-- [proxy10] trigger of a `ZB:` token: the label that makes the proxy give attempt k up for a retry, and k -/
+def parseBoTrigger (s : String) : Option (Label × Nat) :=
+  if s.startsWith "X" then
+    match (dropS s 1).splitOn "=" with
+    | [k, r] => do pure (.upReset (← k.toNat?) (← reasonOfName r), ← k.toNat?)
+    | _ => none
+  else if s.startsWith "P" then (dropS s 1).toNat?.map (fun k => (Label.perTryFire, k))
+  else if s.startsWith "R" then
+    match (dropS s 1).splitOn "=" with
+    | [k, st, dt] => do
+      let (d, t) ← parseDT dt
+      pure (.upResp (← k.toNat?) (← st.toNat?) d t, ← k.toNat?)
+    | _ => none
+  else none
+
+/-- [proxy10] event of a `ZB:` token -/
+def parseBoEvent (s : String) (k : Nat) : Option Label :=
+  if s.startsWith "TMm" || s.startsWith "TMs" then (dropS s 3).toNat?.map Label.terminate
+  else if s.startsWith "TM" then (dropS s 2).toNat?.map Label.terminate
+  else if s == "DR" then some (.downReset .StreamConnectionTermination)
+  else if s == "CC" then some .connClose
+  else if s == "GT" then some .globalFire
+  else if s == "GSm" then some (.gtInSetup false)
+  else if s == "GSs" then some (.gtInSetup true)
+  else if s == "HG" then some .hostsGone
+  else if s == "PFo" then some (.poolFail .overflow)
+  else if s == "PFc" then some (.poolFail .connfail)
+  else if s.startsWith "L" then (parseDT (dropS s 1)).map (fun (d, t) => Label.lateResp k d t)
+  else none
+
 /-- a schedule token is one label or a compound of two; each label comes with the settle mode that follows it:
 0 = the worker runs until it blocks, 1 = … until it blocks or enters doRetry's back-off, 2 = the worker does not run -/
 def parseLabels (s : String) : Option (List (Label × Nat)) :=
@@ -147,6 +195,43 @@ def parseLabels (s : String) : Option (List (Label × Nat)) :=
       let (d, t) ← parseDT dt
       pure [(.upReset k r, 1), (.lateResp k d t, 0)]
     | _ => none
+  else if s.startsWith "ZB:" then
+    match (dropS s 3).splitOn ":" with
+    | [trigT, evT] => do
+      let (trig, k) ← parseBoTrigger trigT
+      if evT == "DS" then
+        -- the client leaves while the wake-up is inside the upstream send of attempt k+1: the Retry pass runs (one worker step:
+        -- `doRetry`, `processError` finds nothing yet), then the reset; `processError` of the real Retry phase finds it — the same
+        -- clean-up, of a stream whose new attempt is live
+        pure [(trig, 1), (.work, 2), (.downReset .StreamConnectionTermination, 0)]
+      else
+      let ev ← parseBoEvent evT k
+      pure [(trig, 1), (ev, 0)]
+    | _ => none
+  else if s.startsWith "XT" then
+    match (dropS s 2).splitOn ":" with
+    | [k, r, code] => do pure [(.upReset (← k.toNat?) (← reasonOfName r), 1), (.terminate (← code.toNat?), 0)]
+    | _ => none
+  else if s.startsWith "PTT" then
+    match (dropS s 3).splitOn ":" with
+    | [_, code] => do pure [(.perTryFire, 1), (.terminate (← code.toNat?), 0)]
+    | _ => none
+  else if s.startsWith "RT" then
+    match (dropS s 2).splitOn ":" with
+    | [k, st, dt, code] => do
+      let (d, t) ← parseDT dt
+      pure [(.upResp (← k.toNat?) (← st.toNat?) d t, 1), (.terminate (← code.toNat?), 0)]
+    | _ => none
+  else if s.startsWith "ZS" then
+    match (dropS s 2).splitOn ":" with
+    | [k, code, dt, w, r] => do
+      let k ← k.toNat?
+      let code ← code.toNat?
+      let (d, t) ← parseDT dt
+      let r ← reasonOfName r
+      let m ← if w == "w" then some 2 else if w == "f" then some 3 else if w == "h" then some 4 else none
+      pure [(.upRespS k code d t, m), (.upReset k r, 0)]
+    | _ => none
   else if s.startsWith "XP" then
     match (dropS s 2).splitOn ":" with
     | [k, r] => do
@@ -163,11 +248,6 @@ def parseSched (s : String) : Option (List Label) := (parseSchedM s).map (fun l 
 
 def fuel : Nat := 400
 
-def arming : Label → Bool
-  | .poolFail _ => true
-  | .hostsGone => true
-  | _ => false
-
 /-- the worker runs until it blocks, returns, or sleeps in doRetry's back-off -/
 def settleBackoff (c : Cfg) : Nat → S → S
   | 0, s => s
@@ -178,8 +258,21 @@ def settleBackoff (c : Cfg) : Nat → S → S
     else if s.phase == .Retry then s
     else settleBackoff c n (work c s)
 
+/-- the worker runs until it is about to run phase `p` (the harness holds it at the top of that phase), blocks, or returns -/
+def settlePhase (c : Cfg) (p : Phase) : Nat → S → S
+  | 0, s => s
+  | n + 1, s =>
+    if !s.running then s
+    else if s.phase == .WaitNotify && !s.notify then s
+    else if bodyWait s then s
+    else if s.phase == p then s
+    else settlePhase c p n (work c s)
+
+/-- settle modes: 0 the worker runs until it blocks · 1 … or sleeps in the back-off · 2 the worker does not run ·
+3 … until it is inside the UpFilter phase · 4 … until it is about to run UpRecvHeader -/
 def settleMode (c : Cfg) (m : Nat) (s : S) : S :=
-  if m == 0 then settle c fuel s else if m == 1 then settleBackoff c fuel s else s
+  if m == 0 then settle c fuel s else if m == 1 then settleBackoff c fuel s
+  else if m == 3 then settlePhase c .UpFilter fuel s else if m == 4 then settlePhase c .UpRecvHeader fuel s else s
 
 /-- the harness' discipline: every label except the arming ones is followed by settle -/
 def runSettled (c : Cfg) (s : S) (l : List Label) : S :=
@@ -323,7 +416,7 @@ def isClientGone : Label → Bool
 /-- schedule positions: is there a `GT` after the request was started -/
 def timeoutAfterStart : List Label → Bool
   | [] => false
-  | .work :: r => r.any (fun l => match l with | .globalFire => true | _ => false)
+  | .work :: r => r.any (fun l => match l with | .globalFire => true | .gtInSetup _ => true | _ => false)
   | _ :: r => timeoutAfterStart r
 
 def isStreamHead : Label → Bool
